@@ -236,3 +236,54 @@ func VerifC09ConcurrentCollect(v *vrt.T) {
 	}
 	v.Reach("end")
 }
+
+// verifBlockedHandler never returns from its first Handle until released.
+type verifBlockedHandler struct {
+	release chan struct{}
+	seen    int
+}
+
+func (h *verifBlockedHandler) Handle(e Event) {
+	<-h.release
+	h.seen++
+}
+
+// VerifC09Saturation: a handler whose buffer is full (a slow or blocked handler: events for
+// it are dropped, as documented) does not affect the other handlers of the topic: they
+// still receive every collected event exactly once, in order. The event buffer length is
+// set to 1 or 2 (white box; the daemon's minimum is 500), the blocked handler is registered
+// before or after the recording one.
+func VerifC09Saturation(v *vrt.T) {
+	ts := NewTopics(0)
+	ts.eventBufferSize = 1 + v.Choose("buffer length", 2)
+	blocked := &verifBlockedHandler{release: make(chan struct{})}
+	rec := &verifRecHandler{name: "rec"}
+	if v.Choose("blocked handler registered first", 2) == 1 {
+		ts.RegisterHandler("t", blocked)
+		ts.RegisterHandler("t", rec)
+	} else {
+		ts.RegisterHandler("t", rec)
+		ts.RegisterHandler("t", blocked)
+	}
+	k := v.Bound("events", 5)
+	var lvls []Level
+	for i := 0; i < k; i++ {
+		lvl := Level(v.IntRange("lvl", 0, 3))
+		lvls = append(lvls, lvl)
+		// the error of a full buffer is reported to the collector; the event is collected
+		_ = ts.Collect(Event{Topic: "t", State: EventState{ID: "a", Level: lvl}})
+		v.Goroutines() // the recording handler keeps up
+	}
+	v.Observe("delivered", len(rec.seen))
+	v.Assert(len(rec.seen) == k, "the other handler receives every collected event although one handler's buffer is full")
+	if len(rec.seen) == k {
+		for i := range lvls {
+			v.Assert(rec.seen[i].level == lvls[i], "in collection order")
+		}
+	}
+	st, ok := ts.Topic("t")
+	v.Assert(ok && st.Collected() == int64(k), "every event is counted as collected")
+	close(blocked.release)
+	v.Goroutines()
+	v.Reach("end")
+}
